@@ -238,7 +238,41 @@ def run(ck):
                 else:
                     cases.append(make_case(cell, scen, ck.rng, tag="#2"))
                 cases.append(make_case(cell, scen, ck.rng, maint="between", tag="#between"))
-    answers = drive_parallel(ck, binary, cases, procs=1 if len(cases) < 4 else 4)
+    # a leaver that holds several hundred keys: the hand-over may take more than one Import call; each of them is disturbed in turn.
+    # (outside the ChordFault model, which hands the keys over in one step: judged by the statement alone)
+    bulk_cases = []
+    if replay is None or replay.get("bulk"):
+        for key in sorted(pred_idle):
+            if key[1] == "Import" and key[0] == "leave-populated" and key[3] == "first":
+                cell = dict(scen=key[0], rpc=key[1], mode=key[2], occ=key[3], err=key[4])
+                for nth, frm in ((1, 0), (2, 0), (3, 0), (0, 2), (0, 3)):        # one call disturbed / every call from the k-th on
+                    c = make_case(cell, scens[key[0]], ck.rng, tag="#bulk-import-%s" % (nth or "from%d" % frm))
+                    c["bulk"] = 2400
+                    c["rule"]["nth"], c["rule"]["from"] = nth, frm
+                    bulk_cases.append(c)
+        if replay is not None:
+            bulk_cases, cases = [replay], []
+    answers = drive_parallel(ck, binary, cases + bulk_cases, procs=1 if len(cases) < 4 else 4)
+    for case, ans in zip(bulk_cases, answers[len(cases):]):
+        cell = case["cell"]
+        if ans.get("err"):
+            if ans["err"] == "operation did not return":
+                ck.violation("C07:Import:%s:leave-populated:operation-hangs:bulk" % cell["mode"], "leave never returned in case %s" % case["name"], case)
+                continue
+            raise vf.Infra("driver chordfault failed on %s: %s" % (case["name"], ans["err"]))
+        ck.count(case["name"], (ans.get("fired") or 0) > 0)
+        st = {n: (v or {}).get("st") for n, v in (ans.get("after") or {}).items()}
+        stuck = sorted(n for n, x in st.items() if x not in SERVING)
+        miss = ans.get("bulk_missing") or []
+        if stuck:
+            ck.violation("C07:Import:%s:leave-populated:stuck:bulk" % cell["mode"], "leave of a node holding about a third of %d keys, Import call %s disturbed (%s): %s stay(s) %s after quiescence"
+                         % (ans.get("bulk", 0), case["rule"]["nth"] or "%d and later" % case["rule"]["from"], cell["mode"], stuck, [st[n] for n in stuck]), case)
+        if miss:
+            ck.violation("C07:Import:%s:leave-populated:key-unreachable:bulk" % cell["mode"],
+                         "leave of a node holding about a third of %d keys, Import call %s disturbed (%s, fired=%s, leave result %s): after quiescence %d acknowledged keys are not "
+                         "served any more, e.g. %s" % (ans.get("bulk", 0), case["rule"]["nth"] or "%d and later" % case["rule"]["from"], cell["mode"], ans.get("fired"), ans.get("op_res"), len(miss), miss[:3]), case)
+    answers = answers[:len(cases)]
+    ck.extra["bulk_leave_runs"] = len(bulk_cases)
 
     mismatches, unpredicted, fired_pairs = [], 0, set()
     for case, ans in zip(cases, answers):
